@@ -1842,4 +1842,50 @@ theorem kymoRange_ordered (l : List (Int × Int)) (hne : l ≠ []) (hwf : ∀ r 
     rcases hv with hv | hv <;> omega
   rw [hk, e1, e2]
 
+/-! ## Part VIII — `export_tiff` as a whole -/
+
+/-- The cast of all frames is the cast of the flattened array, cut back into frames. -/
+theorem castFrames_flatten (d : DType) (clip : Bool) (frames : List (List Rat)) :
+    (castFrames d clip frames).map List.flatten = castImage d clip frames.flatten := by
+  unfold castFrames castImage
+  cases listMin frames.flatten <;> cases listMax frames.flatten <;> try rfl
+  simp only
+  split_ifs <;> simp [Except.map, List.map_flatten, List.map_map]
+
+theorem castFrames_length (d : DType) (clip : Bool) (frames fr : List (List Rat))
+    (h : castFrames d clip frames = .ok fr) : fr.length = frames.length := by
+  unfold castFrames at h
+  cases hmin : listMin frames.flatten <;> cases hmax : listMax frames.flatten <;> rw [hmin, hmax] at h <;>
+    try (cases h)
+  simp only at h
+  split_ifs at h <;> cases h <;> simp
+
+theorem exportTiff_ok (dtype : Option DType) (clip : Bool) (frames : List (List Rat)) (dead exp : List (Int × Int))
+    (pages : List TiffPage) (h : exportTiff dtype clip frames dead exp = .ok pages) :
+    dead ≠ [] ∧ exp ≠ [] ∧ ∃ fr, framesWritten dtype clip frames = .ok fr ∧
+      pages = (fr.zip (dead.zip (exposureTimesMs exp))).map fun t => ⟨encodeRange t.2.1.1 t.2.1.2, t.2.2, t.1⟩ := by
+  unfold exportTiff at h
+  by_cases hd : dead.length = 0
+  · rw [if_pos hd] at h; cases h
+  · rw [if_neg hd] at h
+    have hdne : dead ≠ [] := fun e => hd (by rw [e]; rfl)
+    cases hfw : framesWritten dtype clip frames with
+    | error e => rw [hfw] at h; cases h
+    | ok fr =>
+      rw [hfw] at h
+      simp only at h
+      by_cases he : exp.length = 0
+      · rw [if_pos he] at h; cases h
+      · rw [if_neg he] at h
+        have hene : exp ≠ [] := fun e => he (by rw [e]; rfl)
+        simp only [Except.ok.injEq] at h
+        exact ⟨hdne, hene, fr, rfl, h.symm⟩
+
+theorem framesWritten_length (dtype : Option DType) (clip : Bool) (frames fr : List (List Rat))
+    (h : framesWritten dtype clip frames = .ok fr) : fr.length = frames.length := by
+  cases dtype with
+  | none => cases h; rfl
+  | some d => exact castFrames_length d clip frames fr h
+
+
 end Verif.C18
